@@ -101,6 +101,10 @@ def ob_identity(name, lhs, rhs, tol=TOL_FLOAT, kind="post", pre=(), norm=None, r
                 detail += f" | numeric search crashed: {e!r}"
         if not inputs:
             inputs = find_witness(lhs, rhs, pre, reltol=max(wit_tol, 100 * tol))
+        if not inputs and pre:
+            # narrow path conditions (a tolerance band, a point on a border) are missed by random
+            # sampling: take z3's model of the conditions as candidate and evaluate both sides there
+            inputs = _model_witness(lhs, rhs, pre, reltol=max(wit_tol, 100 * tol))
         if inputs:
             return Ob(name, kind, REFUTED, "ratfun+witness", time.time() - t0, detail, inputs, replay or {})
         return Ob(name, kind, UNDECIDED, "ratfun", time.time() - t0, detail + " | no input found at which the sides differ numerically (atoms may be related)")
@@ -110,6 +114,58 @@ def ob_identity(name, lhs, rhs, tol=TOL_FLOAT, kind="post", pre=(), norm=None, r
 
 def _poly_witness(n, lhs, rhs, conds=()):
     return find_witness(lhs, rhs, conds)
+
+
+def _model_witness(lhs, rhs, conds, reltol=1e-9):
+    from .numeval import evalf, evalb
+    from .smt import check_sat
+    from .sym import free_vars
+
+    try:
+        st, model = check_sat([c for c in conds if not isinstance(c, bool)], 5000, want_model=True, use_cvc5=False)
+        if st != "sat" or not model:
+            return {}
+        env = {}
+        for v in free_vars(lhs) | free_vars(rhs) | set().union(*[free_vars(c) for c in conds if not isinstance(c, bool)]):
+            if v.op == "v":
+                val = model.get(v.args[0])
+                env[v.args[0]] = float(val) if val is not None and not isinstance(val, str) else 0.37
+        import zlib
+
+        class Pseudo(dict):
+            def __contains__(self, name):
+                return True
+
+            def __getitem__(self, name):
+                return lambda *args: 0.25 + (zlib.crc32(repr((name,) + tuple(round(float(x), 12) if isinstance(x, (int, float)) else x for x in args)).encode()) % 10007) / 10007.0
+
+        # the model itself, then small displacements of each variable that stay inside the conditions
+        # (a model often sits on the one point of a tolerance band where both sides agree)
+        cands = [dict(env)]
+        for f_ in (1 + 3e-6, 1 - 3e-6, 1 + 3e-9, 1 - 3e-9):
+            cands.append({k: v * f_ for k, v in env.items()})  # several variables on the edge of their bands
+        for k in sorted(env):
+            for f_ in (1 + 3e-6, 1 - 3e-6, 1 + 3e-9, 1 - 3e-9, 1 + 1e-3, 1 - 1e-3):
+                e2 = dict(env)
+                e2[k] = env[k] * f_ if env[k] != 0 else (f_ - 1)
+                cands.append(e2)
+        for n_, e_ in enumerate(cands):
+            try:
+                # the model itself satisfies the conditions by z3's word (equalities -- a point exactly on
+                # a border -- cannot be re-checked in floats); displaced points are re-checked
+                if n_ > 0 and not all(evalb(c, e_, Pseudo()) for c in conds if not isinstance(c, bool)):
+                    continue
+                a, b = evalf(lhs, e_, Pseudo()), evalf(rhs, e_, Pseudo())
+            except Exception:  # noqa
+                continue
+            if abs(a - b) > (max(reltol, 1e-6) if n_ == 0 else reltol) * max(1.0, abs(a), abs(b)):
+                out = dict(e_)
+                out["_lhs"], out["_rhs"] = a, b
+                out["_note"] = "witness from the z3 model of the path condition (possibly displaced inside it)"
+                return out
+    except Exception:  # noqa
+        pass
+    return {}
 
 
 def find_witness(lhs, rhs, conds=(), tries=3000, seed=12345, reltol=1e-9):
